@@ -941,9 +941,15 @@ def rule_codec_purity(prog, rep, rid='TB17', unit='src/utilities/qencode.c', wha
     for f in sorted(prog.funcs_in(unit), key=lambda x: x.line or 0):
         if f.body is None:
             continue
+        def const_obj(t):
+            # the object itself is const: `const T x`, `const T x[N]`, `T *const p` - not `const T *p` (a mutable pointer)
+            t = (t or '').strip()
+            if '*' in t:
+                return t[t.rfind('*') + 1:].strip().startswith('const')
+            return 'const' in t
         statics = {x.get('name') for x in walk(f.body) if x.get('kind') == 'VarDecl' and x.get('storageClass') == 'static'
-                   and 'const' not in (qtype(x) or '')}
-        globs = {nm for nm, g in u.globals.items() if 'const' not in (qtype(g) or '')}
+                   and not const_obj(qtype(x))}
+        globs = {nm for nm, g in u.globals.items() if not const_obj(qtype(g))}
         bad = []
         for x in walk(f.body):
             tgt = None
